@@ -505,13 +505,15 @@ size_t ZSTD_seekable_decompress(ZSTD_seekable* zs, void* dst, size_t len, unsign
     do {
         /* check if we can continue from a previous decompress job */
         if (targetFrame != zs->curFrame || offset < zs->decompressedOffset) {
-            zs->decompressedOffset = zs->seekTable.entries[targetFrame].dOffset;
-            zs->curFrame = targetFrame;
-
             assert(zs->seekTable.entries[targetFrame].cOffset < LLONG_MAX);
+            /* nothing is current until the seek has succeeded : a failed call must not be continued by the next one */
+            zs->curFrame = (U32)-1;
+            zs->decompressedOffset = (U64)-1;
             CHECK_IO(zs->src.seek(zs->src.opaque,
                                   (long long)zs->seekTable.entries[targetFrame].cOffset,
                                   SEEK_SET));
+            zs->decompressedOffset = zs->seekTable.entries[targetFrame].dOffset;
+            zs->curFrame = targetFrame;
             zs->in = (ZSTD_inBuffer){zs->inBuff, 0, 0};
             XXH64_reset(&zs->xxhState, 0);
             ZSTD_DCtx_reset(zs->dstream, ZSTD_reset_session_only);
